@@ -512,3 +512,7 @@ impl RemotePeerHandle {
             .map_err(|e| crate::Error::SendError(e.to_string()))
     }
 }
+
+#[cfg(discret_verif)]
+#[path = "/verif/hooks/peer_outbound_service.rs"]
+pub(crate) mod verif_hook;
